@@ -887,13 +887,17 @@ func (w *streamWriter) Close() error {
 	}
 
 	w.parent.inStream = false
-	for _, pair := range w.parent.afterStream {
+	// The queue is taken over before it is replayed: a queued stream object
+	// is written through OpenStream, and the Close of that stream must not
+	// find (and write again) the objects which are being written here.
+	pending := w.parent.afterStream
+	w.parent.afterStream = nil
+	for _, pair := range pending {
 		err = w.parent.Put(pair.ref, pair.obj)
 		if err != nil {
 			return err
 		}
 	}
-	w.parent.afterStream = w.parent.afterStream[:0]
 
 	return nil
 }
